@@ -19,6 +19,11 @@
   shared; markets copied one by one; frame shared; nested cells shared) and the two seeded regressions
   (`get_new_order_list` without deep copy; `set_price` adopting all-Decimal frames).
 
+  Scope of the layer `N` under `cellsCopied = true`: objects nested in cells of columns that hold at least one list, dict
+  or set cell (what `_own_frame` deep-copies; see `Mode.cellsCopied`).  Frames with mutable cells of other classes only
+  are the case `cellsCopied = false`: `C19_order_list_copy_partial` (needs `CellsIntact`) and the witness
+  `C19_fails_when_nested_cells_are_shared`.
+
   Strategies whose backtest ends in an exception: `Proofs/C19/Failure.lean` (the theorems here are its special case
   "nobody fails", `C19_without_failures_same_as_plain_manager`).
 -/
